@@ -1,4 +1,110 @@
-import Walleye.Model.MoveGen
+/-
+  C10 — repetition counts are exact and a third occurrence is scored as a draw.
+  Keys are 64-bit; "position" means "key" here (trusted base item 7).
+-/
+import Walleye.Proofs.Reports
+import Walleye.Model.UciText
 namespace Walleye
-theorem C10_placeholder (c : Color) : c.opp.opp = c := Color.opp_opp c
+open DrawTable
+
+/-- the keys of the positions reached by replaying `ms` from `p` (none: a move text panics) -/
+def keysAlong (h : Hasher) : Pos → List (List Char) → Option (List UInt64)
+  | _, [] => some []
+  | p, m :: ms =>
+    match makeMove h p m with
+    | none => none
+    | some p' => (keysAlong h p' ms).map (p'.key :: ·)
+
+/-- after replaying a move list the table holds, for every key, its previous count plus the number
+    of times it occurred along the way (no count reached 256) -/
+theorem table_after_moves (h : Hasher) (p p' : Pos) (t t' : DrawTable) (ms : List (List Char))
+    (hp : playMoves h p t ms = some (p', t')) :
+    ∃ ks, keysAlong h p ms = some ks ∧ ∀ k, count t' k = count t k + ks.count k := by
+  induction ms generalizing p t with
+  | nil =>
+    simp only [playMoves, Option.some.injEq, Prod.mk.injEq] at hp
+    obtain ⟨_, rfl⟩ := hp
+    exact ⟨[], rfl, fun k => by simp⟩
+  | cons m ms ih =>
+    unfold playMoves at hp
+    cases hm : makeMove h p m with
+    | none => rw [hm] at hp; cases hp
+    | some q =>
+      rw [hm] at hp
+      simp only at hp
+      cases ha : t.add q.key with
+      | none => rw [ha] at hp; cases hp
+      | some t1 =>
+        rw [ha] at hp
+        simp only at hp
+        obtain ⟨ks, hks, hc⟩ := ih q t1 hp
+        refine ⟨q.key :: ks, by simp [keysAlong, hm, hks], fun k => ?_⟩
+        rw [hc k, count_add ha k, List.count_cons]
+        by_cases e : q.key = k
+        · subst e; simp; omega
+        · have : (q.key == k) = false := by simpa using e
+          simp [e, this]
+
+/-- `position …` builds its table from the command alone: start position once, then the moves -/
+theorem table_after_position (h : Hasher) (cmds : List (List Char)) (p : Pos) (t : DrawTable)
+    (hp : playOutPosition h cmds = some (p, t)) :
+    ∃ (start : Pos) (ks : List UInt64), ∀ k, count t k = (start.key :: ks).count k := by
+  unfold playOutPosition at hp
+  cases h1 : cmds[1]? with
+  | none => simp [h1] at hp
+  | some c1 =>
+    simp only [h1] at hp
+    split at hp
+    · cases hp
+    · rename_i start hstart
+      cases hi : cmds.findIdx? (· = "moves".toList) with
+      | none =>
+        simp only [hi, Option.some.injEq, Prod.mk.injEq] at hp
+        obtain ⟨_, rfl⟩ := hp
+        refine ⟨start, [], fun k => ?_⟩
+        rw [count_insert]
+        by_cases e : start.key = k
+        · subst e; simp
+        · have : (start.key == k) = false := by simpa using e
+          simp [e, List.count_cons, this, count, lookup]
+      | some i =>
+        simp only [hi] at hp
+        obtain ⟨ks, _, hc⟩ := table_after_moves h start p _ t _ hp
+        refine ⟨start, ks, fun k => ?_⟩
+        rw [hc k, count_insert, List.count_cons]
+        by_cases e : start.key = k
+        · subst e; simp; omega
+        · have : (start.key == k) = false := by simpa using e
+          simp [e, this, count, lookup]
+
+/-- nothing of an earlier `position` command survives: the result is a function of the command -/
+theorem position_resets (h : Hasher) (cmds : List (List Char)) :
+    ∀ t1 t2 : DrawTable, (fun (_ : DrawTable) => playOutPosition h cmds) t1 = (fun _ => playOutPosition h cmds) t2 :=
+  fun _ _ => rfl
+
+variable {P O : Type} (g : Game P) (ord : Oracle P O)
+
+/-- a move into a position that has already occurred at least twice (game + current line) is
+    valued as a draw at once, before anything else is looked at -/
+theorem repeated_child_is_draw (fuel : Nat) (c : P) (d ply : Nat) (a b : Int) (n : Bool) (s s1 : SS P O)
+    (ht : tick s = .ok false s1) (hrep : count s.table (g.key c) ≥ 2) :
+    ∃ s2, alphaBeta g ord (fuel + 1) c d ply a b n s = .ok 0 s2 ∧ s2.table = s.table ∧ s2.reports = s.reports := by
+  unfold alphaBeta
+  rw [bind_of_ok ht]
+  have ht' : s1.table = s.table ∧ s1.reports = s.reports := by rw [(tick_eq ht).1]; exact ⟨rfl, rfl⟩
+  refine ⟨{ s1 with nodes := s1.nodes + 1 }, ?_, ht'.1, ht'.2⟩
+  simp only [Bool.false_eq_true, if_false]
+  have hn : (nodeSearched : M (SS P O) Unit) s1 = .ok () { s1 with nodes := s1.nodes + 1 } := rfl
+  rw [bind_of_ok hn]
+  have hg : (M.get : M (SS P O) (SS P O)) { s1 with nodes := s1.nodes + 1 } =
+      .ok { s1 with nodes := s1.nodes + 1 } { s1 with nodes := s1.nodes + 1 } := rfl
+  rw [bind_of_ok hg]
+  have : DrawTable.isThreefold s1.table (g.key c) = true := by
+    unfold isThreefold; rw [ht'.1]; simpa using hrep
+  simp only [this, if_true]
+  rfl
+
+/-- the fix of 4553a5f: also a FOURTH, fifth … occurrence is a draw (`>= 2`, not `== 2`) -/
+example : DrawTable.isThreefold [(7, 5)] 7 = true := by decide
+
 end Walleye
